@@ -338,14 +338,14 @@ theorem update_is_generated (e : Emu) (op : EOp) (hostEmpty : Bool) (h : kindOf 
   | apc => rfl
   | resize w h' => exact absurd rfl h
 
-/-- the shape of update() the table was read from: lock, the three defers, then the type switch as the last statement; one arm
-    per kind of sequence, none unknown -/
+/-- the shape of update() the table was read from: lock, the three defers, then the type switch as the last statement; exactly
+    one arm per kind of sequence (in any order), none unknown -/
 theorem update_shape :
     TermBodies.updatePre = ["vt.mu.Lock()", "defer vt.mu.Unlock()", "defer vt.parser.Finish(seq)", "defer vt.invalidate()"] ∧
     TermBodies.updateSwitchLast = true ∧
-    TermBodies.updateArms.map (·.1) = [.print, .c0, .esc, .csi, .osc, .dcs, .apc] ∧
+    ([SeqKind.print, .c0, .esc, .csi, .osc, .dcs, .apc].all fun k => (TermBodies.updateArms.filter (·.1 = k)).length = 1) = true ∧
     (TermBodies.updateArms.all fun x => match x.2 with | .unknown _ => false | _ => true) = true := by
-  refine ⟨rfl, rfl, rfl, rfl⟩
+  refine ⟨rfl, rfl, by decide, rfl⟩
 
 /-- Non-vacuity / reading aid: CUU is `evalBody body_cuu` on `ps(params)`, SGR is `evalBody body_sgr` on the list, DECSC takes nothing. -/
 example (e : Emu) (pm : List Param) :
